@@ -23,6 +23,7 @@ type c13Peer struct {
 	Passive bool   `json:"passive"`
 	State   string `json:"state"`           // fresh aborted-in opensent openconfirm est-in est-out est-collision held-down deleted readded
 	HD      string `json:"hd,omitempty"`    // held-down: state in which the protocol error is caused (default opensent)
+	HDCode  uint8  `json:"hd_code,omitempty"` // held-down: 0 = corebgp sends the NOTIFICATION (bad marker); else the remote sends one with this code (never 6)
 	ArmD    int64  `json:"arm_d,omitempty"` // est-collision: delay of the peer manager at its collision schedule point
 }
 
@@ -199,7 +200,13 @@ func c13Prop(t *testing.T, r *hx.Run) func(c c13Case) hx.Verdict {
 						case stEstablished:
 							world.Handshake(w, sp, cn, 90, 0x0a000063+uint32(i))
 						}
-						cn.RemoteSend(bad, nil) // Connection Not Synchronized: a protocol error
+						if p.HDCode != 0 {
+							cn.RemoteSend(wire.Notif{Code: p.HDCode, Sub: 1}.Frame(), nil) // a received protocol error
+							w.Settle()
+							cn.RemoteClose()
+						} else {
+							cn.RemoteSend(bad, nil) // Connection Not Synchronized: a protocol error
+						}
 					case "aborted-in":
 						// a TCP failure in OpenSent: no hold-down, nothing in progress afterwards
 						cn.RemoteClose()
@@ -391,6 +398,7 @@ func genC13(rt *rapid.T) c13Case {
 		}
 		if p.State == "held-down" {
 			p.HD = pick(rt, "hd", "", stOpenConfirm, stEstablished)
+			p.HDCode = pick[uint8](rt, "hdcode", 0, 0, 1, 2, 3, 4, 5, 7, 8, 255, 100)
 		}
 		c.Peers = append(c.Peers, p)
 	}
